@@ -76,9 +76,11 @@ class Collector(object):
     def exclude(self, why, n=1):
         self.excluded[why] = self.excluded.get(why, 0) + n
 
-    def fail(self, sub, kind, msg, case, size=None, sig=''):
+    def fail(self, sub, kind, msg, case, size=None, sig='', obs=None):
         """A violation candidate. bucket = (sub, kind, sig)."""
         f = {'sub': sub, 'kind': kind, 'sig': sig, 'msg': str(msg)[:600], 'case': to_jsonable(case)}
+        if obs is not None:
+            f['obs'] = to_jsonable(obs)
         fid = self.attribute(f) if self.attribute is not None else None
         f['finding'] = fid
         bucket = '%s|%s|%s|%s' % (sub, kind, sig, fid or '')
@@ -146,6 +148,7 @@ def _shard_entry(args):
         col.attribute = make_attributor(mod)
         mod.run_shard(desc, seed, tier, col)
         col.deadline = None
+        col.attribute = None
         return ('ok', col)
     except BaseException:
         return ('err', traceback.format_exc())
@@ -213,7 +216,8 @@ def write_replay(prop, failure):
     path = os.path.join(d, '%s.json' % h)
     with open(path, 'w') as f:
         json.dump({'property': prop, 'sub': failure['sub'], 'kind': failure['kind'], 'sig': failure['sig'],
-                   'msg': failure['msg'], 'case': failure['case']}, f, indent=1, sort_keys=True)
+                   'msg': failure['msg'], 'case': failure['case'], 'obs': failure.get('obs')}, f, indent=1,
+                  sort_keys=True)
     return path
 
 
